@@ -295,6 +295,7 @@ theorem op_good : (op : ROp) → ∀ rd, GoodS (runOp op rd) rd
           simp only [Cost.add_alloc] at *; omega
         · have := hg.all
           simp only [Cost.add_alloc] at *; omega
+  | .sub item, rd => by simp only [runOp]; exact prog_good item rd
 theorem prog_good : (p : RProg) → ∀ rd, GoodS (runProg p rd) rd
   | .nil, rd => goodS_free (by simp [runProg]) (by simp [runProg]) (by simp [runProg])
   | .cons op rest, rd => by
@@ -328,6 +329,7 @@ def ROp.minSize : ROp → Nat
   | .ows lp _ => lp.width
   | .peek _ => 0
   | .coll lp _ => lp.width
+  | .sub _ => 0
 
 def RProg.minSize : RProg → Nat
   | .nil => 0
@@ -337,6 +339,7 @@ mutual
 /-- every item program of every collection has a positive minimum size -/
 def ROp.pos : ROp → Bool
   | .coll _ item => decide (1 ≤ item.minSize) && item.pos
+  | .sub item => item.pos
   | _ => true
 def RProg.pos : RProg → Bool
   | .nil => true
@@ -347,6 +350,7 @@ mutual
 /-- 1 + nesting depth of collections -/
 def ROp.K : ROp → Nat
   | .coll _ item => item.K + 1
+  | .sub item => item.K
   | _ => 1
 def RProg.K : RProg → Nat
   | .nil => 1
@@ -396,6 +400,7 @@ theorem readObj_min (n : Int) (f : From) (rd0 rd : Rd) (c0 : Cost) (w : Nat)
 
 theorem op_min (op : ROp) (rd : Rd) : MinS op.minSize (runOp op rd) rd := by
   cases op with
+  | sub item => intro _; simp [ROp.minSize]
   | num w =>
     have hrl := readFull_len w rd
     simp only [runOp, MinS, ROp.minSize]
@@ -657,6 +662,9 @@ theorem op_I : (op : ROp) → op.pos = true → ∀ rd, GoodSI op.K (runOp op rd
           have hmono : (item.K + 1) * (rd'.rest.length + 1) ≤ (item.K + 1) * (rd.rest.length + 1) :=
             Nat.mul_le_mul_left _ (by omega)
           simp only [Cost.add_iters] at *; omega
+  | .sub item, hp, rd => by
+    simp only [runOp, ROp.K]
+    exact prog_I item (by simpa [ROp.pos] using hp) rd
 theorem prog_I : (p : RProg) → p.pos = true → ∀ rd, GoodSI p.K (runProg p rd) rd
   | .nil, _, rd => goodSI_zero (by simp [runProg])
   | .cons op rest, hp, rd => by
